@@ -52,7 +52,7 @@ theorem decode_suffix (n : Nat) (bs : List Nat) (f v : Nat) (rest : List Nat)
 /-! ### the C15 theorems this development builds on
 
     The statements are those of `H3.Props.C15` (`C15_prefix_int_roundtrip`,
-    `C15_prefix_int_ok_sound`, `C15_huffman_roundtrip`, `C15_string_literal_roundtrip`,
+    `C15_prefix_int_ok_sound`, `C15_huffman_roundtrip`, `C15_string_literal_encode`, `C15_string_literal_roundtrip`,
     `C15_huffman_accepts_exactly_partial`), verbatim; the C11/C10 theorems take the bundle as a
     hypothesis, to be discharged with `⟨C15_prefix_int_roundtrip, …⟩`. -/
 structure C15Facts : Prop where
@@ -76,14 +76,20 @@ structure C15Facts : Prop where
     Huffman.hdecodeX (Huffman.hencode s) = .ok (s, false) ∧
     Huffman.hdecode (Huffman.hencode s) = .ok s ∧
     Huffman.lax (Huffman.hencode s) = false
+  string_literal_encode : ∀ (n flags : Nat) (_hn2 : 2 ≤ n) (_hn8 : n ≤ 8) (_hf : flags < 2 ^ (8 - n))
+      (s : List Nat) (_hs : ∀ x ∈ s, x < 256) (_hvec : (Huffman.hencode s).length < 2 ^ 63),
+    PrefixString.encode? n flags s = some (PrefixString.encode n flags s) ∧
+    PrefixString.encode n flags s =
+      PrefixInt.encode (n - 1) (2 * flags + 1) (Huffman.hencode s).length ++ Huffman.hencode s
   string_literal_roundtrip : ∀ (n flags : Nat) (_hn2 : 2 ≤ n) (_hn8 : n ≤ 8) (_hf : flags < 2 ^ (8 - n))
-      (s : List Nat) (_hs : ∀ x ∈ s, x < 256) (_hlen : (Huffman.hencode s).length < 2 ^ 63)
+      (s : List Nat) (_hs : ∀ x ∈ s, x < 256) (_hlen : (Huffman.hencode s).length * 8 + 16 < 2 ^ 32)
       (rest : List Nat),
     PrefixString.encode? n flags s = some (PrefixString.encode n flags s) ∧
     PrefixString.encode n flags s =
       PrefixInt.encode (n - 1) (2 * flags + 1) (Huffman.hencode s).length ++ Huffman.hencode s ∧
     PrefixString.decode? n (PrefixString.encode n flags s ++ rest) = some (.ok flags s rest) ∧
-    PrefixString.decode n (PrefixString.encode n flags s ++ rest) = .ok flags s rest
+    PrefixString.decode n (PrefixString.encode n flags s ++ rest) = .ok flags s rest ∧
+    ∀ g, PrefixString.decodeG? g n (PrefixString.encode n flags s ++ rest) = some (.ok flags s rest)
   huffman_accepts_exactly_partial : ∀ (b : List Nat) (_hb : ∀ x ∈ b, x < 256) (s : List Nat),
     (Spec.Huffman.specDecode b = some s → Huffman.hdecodeX b = .ok (s, false)) ∧
     (Huffman.hdecodeX b = .ok (s, false) → Spec.Huffman.specDecode b = some s) ∧
@@ -127,7 +133,7 @@ theorem strDecode_shape (n : Nat) (hn0 : n ≠ 0) (bs v rest : List Nat) (lax : 
     injection h with h
     simp only [Prod.mk.injEq] at h
     obtain ⟨rfl, rfl, hl⟩ := h
-    unfold PrefixString.decode PrefixString.decode? at hps
+    unfold PrefixString.decode PrefixString.decode? PrefixString.decodeG? at hps
     rw [if_neg hn0] at hps
     cases hd? : PrefixInt.decode? (n - 1) bs with
     | none => simp [hd?] at hps
@@ -138,6 +144,10 @@ theorem strDecode_shape (n : Nat) (hn0 : n ≠ 0) (bs v rest : List Nat) (lax : 
       | endOf => simp at hps
       | overflow => simp at hps
       | ok flags len r1 =>
+        simp only at hps
+        by_cases hhuge : (H3.Gen.HuffDec.hugeLiteralRefused && PrefixString.hugeHuffman flags len) = true
+        · rw [if_pos hhuge] at hps; simp at hps
+        rw [if_neg hhuge] at hps
         simp only [Option.getD_some] at hps
         unfold PrefixString.decodePayload at hps
         by_cases hlen : r1.length < len
@@ -595,7 +605,7 @@ theorem stringLiteral_encode (h15 : C15Facts) (n flags : Nat) (hn : n = 4 ∨ n 
     Spec.Qpack.stringLiteral (n - 1) (PrefixString.encode n flags s ++ rest) = .ok (s, rest) ∧
     ∃ first r, PrefixString.encode n flags s ++ rest = first :: r ∧ first / 2 ^ (n - 1) = 2 * flags + 1 ∧
       first < 256 := by
-  obtain ⟨he?, heq, _, _⟩ := h15.string_literal_roundtrip n flags (by omega) (by omega) hf s hs hlen rest
+  obtain ⟨he?, heq⟩ := h15.string_literal_encode n flags (by omega) (by omega) hf s hs hlen
   obtain ⟨_, _, _, hwfh, hX, _, _⟩ := h15.huffman_roundtrip s hs
   have hspec := (h15.huffman_accepts_exactly_partial (Huffman.hencode s) hwfh s).2.1 hX
   have hf' : 2 * flags + 1 < 2 ^ (8 - (n - 1)) := by
@@ -695,11 +705,23 @@ theorem table_index_lt (i : Nat) (p : List Nat × List Nat) (h : H3.Gen.StaticTa
 
 /-! ### one encoded field -/
 
-/-- what the theorems ask of a field handed to the encoder: octets, and Huffman codings that
-    fit a `Vec` (shorter than 2^63 octets — the hypothesis of `C15_string_literal_roundtrip`) -/
+/-- what the theorems ask of a field handed to the encoder: octets, and Huffman codings whose bit
+    length + 16 fits `u32` (shorter than 2^29 − 2 octets — the hypothesis of
+    `C15_string_literal_roundtrip`: `prefix_string::decode` refuses longer Huffman literals since the
+    repair of D-06u, `C15_string_literal_beyond_bound`) -/
 def Encodable (f : Field) : Prop :=
+  WF f.name ∧ WF f.value ∧ (Huffman.hencode f.name).length * 8 + 16 < 2 ^ 32 ∧
+    (Huffman.hencode f.value).length * 8 + 16 < 2 ^ 32
+
+/-- what the ENCODER asks of a field: octets, and Huffman codings that fit a `Vec` (shorter than 2^63
+    octets — the hypothesis of `C15_string_literal_encode`); the encode-side theorems
+    (`C11_encode_then_rfc_decode`) hold for all of these, also beyond what h3's own decoder takes -/
+def Writable (f : Field) : Prop :=
   WF f.name ∧ WF f.value ∧ (Huffman.hencode f.name).length < 2 ^ 63 ∧
     (Huffman.hencode f.value).length < 2 ^ 63
+
+theorem Encodable.writable {f : Field} (h : Encodable f) : Writable f :=
+  ⟨h.1, h.2.1, by have := h.2.2.1; omega, by have := h.2.2.2; omega⟩
 
 theorem wf_append {a b : List Nat} (ha : WF a) (hb : WF b) : WF (a ++ b) := by
   intro x hx
@@ -707,7 +729,7 @@ theorem wf_append {a b : List Nat} (ha : WF a) (hb : WF b) : WF (a ++ b) := by
   · exact ha x h
   · exact hb x h
 
-theorem encodeField_spec (h15 : C15Facts) (f : Field) (hf : Encodable f) (rest : List Nat) (hr : WF rest) :
+theorem encodeField_spec (h15 : C15Facts) (f : Field) (hf : Writable f) (rest : List Nat) (hr : WF rest) :
     ∃ b, encodeField? f = some b ∧ WF b ∧
       ∃ first t l, b = first :: t ∧ Spec.Qpack.parseLine first (t ++ rest) = .ok (l, rest) ∧
         Spec.Qpack.interp l = .ok (f.name, f.value) ∧ l.isStateless = true := by
@@ -784,7 +806,7 @@ theorem encodeField_spec (h15 : C15Facts) (f : Field) (hf : Encodable f) (rest :
 
 /-! ### the whole encoded section -/
 
-theorem encodeFields_spec (h15 : C15Facts) : ∀ (fs : List Field) (size : Nat), (∀ f ∈ fs, Encodable f) →
+theorem encodeFields_spec (h15 : C15Facts) : ∀ (fs : List Field) (size : Nat), (∀ f ∈ fs, Writable f) →
     ∃ bs, encodeFields? fs size = some (bs, size + Spec.Qpack.size (pairs fs)) ∧ WF bs ∧
       ∀ fuel, bs.length ≤ fuel → ∃ ls, Spec.Qpack.parseLines fuel bs = .ok ls ∧
         Spec.Qpack.interpAll ls = .ok (pairs fs) ∧ ls.all (·.isStateless) = true := by
@@ -819,7 +841,7 @@ theorem encodeFields_spec (h15 : C15Facts) : ∀ (fs : List Field) (size : Nat),
         · simp [hst, hall']
 
 /-- `C11_encode_then_rfc_decode` on the lemma level. -/
-theorem encodeStateless_spec (h15 : C15Facts) (fs : List Field) (hfs : ∀ f ∈ fs, Encodable f) :
+theorem encodeStateless_spec (h15 : C15Facts) (fs : List Field) (hfs : ∀ f ∈ fs, Writable f) :
     ∃ bs, encodeStateless? fs = some ([0, 0] ++ bs, Spec.Qpack.size (pairs fs)) ∧ WF bs ∧
       ∃ ls, Spec.Qpack.parse ([0, 0] ++ bs) = .ok ls ∧ Spec.Qpack.interpAll ls = .ok (pairs fs) ∧
         ls.all (·.isStateless) = true := by
@@ -1358,9 +1380,9 @@ theorem decodeStatelessX_eq (bs : List Nat) (max : Nat) (res : Res) (lax : Bool)
 /-! ### what h3 encodes, h3 decodes (model against model) -/
 
 theorem strDecode_encode (h15 : C15Facts) (n flags : Nat) (hn : n = 4 ∨ n = 8) (hf : flags < 2 ^ (8 - n))
-    (s : List Nat) (hs : WF s) (hlen : (Huffman.hencode s).length < 2 ^ 63) (rest : List Nat) :
+    (s : List Nat) (hs : WF s) (hlen : (Huffman.hencode s).length * 8 + 16 < 2 ^ 32) (rest : List Nat) :
     strDecode n (PrefixString.encode n flags s ++ rest) = .ok (s, rest, false) := by
-  obtain ⟨_, heq, _, hdec⟩ := h15.string_literal_roundtrip n flags (by omega) (by omega) hf s hs hlen rest
+  obtain ⟨_, heq, _, hdec, _⟩ := h15.string_literal_roundtrip n flags (by omega) (by omega) hf s hs hlen rest
   obtain ⟨_, _, _, _, _, _, hlax⟩ := h15.huffman_roundtrip s hs
   have hf' : 2 * flags + 1 < 2 ^ (8 - (n - 1)) := by
     rcases hn with rfl | rfl
@@ -1403,7 +1425,7 @@ theorem decodeField_encode (h15 : C15Facts) (f : Field) (hf : Encodable f) (rest
   | none =>
     simp only
     have hsv := strDecode_encode h15 8 0 (Or.inr rfl) (by decide) f.value hwv hlv rest
-    obtain ⟨hev?, _, _, _⟩ := h15.string_literal_roundtrip 8 0 (by omega) (by omega) (by decide) f.value hwv hlv rest
+    obtain ⟨hev?, _, _, _, _⟩ := h15.string_literal_roundtrip 8 0 (by omega) (by omega) (by decide) f.value hwv hlv rest
     cases hname : StaticTable.findName f.name with
     | some i =>
       obtain ⟨v0, htab⟩ := findName_sound f.name i hname
@@ -1431,9 +1453,9 @@ theorem decodeField_encode (h15 : C15Facts) (f : Field) (hf : Encodable f) (rest
       simp only
       have hsn := strDecode_encode h15 4 2 (Or.inl rfl) (by decide) f.name hwn hln
         (PrefixString.encode 8 0 f.value ++ rest)
-      obtain ⟨hen?, _, _, _⟩ := h15.string_literal_roundtrip 4 2 (by omega) (by omega) (by decide) f.name hwn hln rest
+      obtain ⟨hen?, _, _, _, _⟩ := h15.string_literal_roundtrip 4 2 (by omega) (by omega) (by decide) f.name hwn hln rest
       obtain ⟨_, _, _, fn0, tn, hcn0, hfn, hltn⟩ :=
-        stringLiteral_encode h15 4 2 (Or.inl rfl) (by decide) f.name hwn hln [] (by intro _ h; cases h)
+        stringLiteral_encode h15 4 2 (Or.inl rfl) (by decide) f.name hwn (by omega) [] (by intro _ h; cases h)
       simp only [List.append_nil, show (4 : Nat) - 1 = 3 from rfl] at hcn0 hfn
       refine ⟨PrefixString.encode 4 2 f.name ++ PrefixString.encode 8 0 f.value, fn0,
         tn ++ PrefixString.encode 8 0 f.value, ?_, by rw [hcn0]; rfl, ?_⟩
@@ -1502,7 +1524,7 @@ theorem decodeLoop_encode (h15 : C15Facts) (max : Nat) : ∀ (fs : List Field) (
 theorem decodeStateless_encode (h15 : C15Facts) (fs : List Field) (hfs : ∀ f ∈ fs, Encodable f) (L : Nat)
     (hL : Spec.Qpack.size (pairs fs) ≤ L) :
     decodeStatelessX (encodeStateless fs).1 L = (.ok fs (Spec.Qpack.size (pairs fs)), false) := by
-  obtain ⟨bs, henc, _, _⟩ := encodeStateless_spec h15 fs hfs
+  obtain ⟨bs, henc, _, _⟩ := encodeStateless_spec h15 fs (fun f hf => (hfs f hf).writable)
   have he : encodeStateless fs = ([0, 0] ++ bs, Spec.Qpack.size (pairs fs)) := by
     simp [encodeStateless, henc]
   rw [he]
